@@ -131,9 +131,13 @@ static void trace_fail(void *pc, const char *dom)
     fprintf(stderr, "injected %s allocation failure #%ld in %s\n", dom, dom[0] == 'y' ? g_sim.n_yaml : g_sim.n_vna, symbolize_pc(pc).c_str());
     g_sim.in_lib = depth;
 }
-static inline int decide(void *pc, int *domain)
+// The simulated machine has SIM_RAM bytes for one block: a library request above that is
+// refused like a real allocator refuses it (ENOMEM), without counting as an injected fault.
+static const size_t SIM_RAM = (size_t)256 << 20;
+static inline int decide(void *pc, int *domain, size_t want = 0)
 {
     if (g_sim.in_lib <= 0) { *domain = -1; return 0; }
+    if (want > SIM_RAM) { *domain = 0; ++g_sim.n_toobig; return 1; }
     if (is_yaml_pc(pc)) {
 	*domain = 1;
 	++g_sim.n_yaml; ++g_sim.total_yaml;
@@ -165,7 +169,7 @@ void *__wrap_malloc(size_t n)
 {
     int dom;
     void *pc = __builtin_return_address(0);
-    if (decide(pc, &dom)) { errno = ENOMEM; return nullptr; }
+    if (decide(pc, &dom, n)) { errno = ENOMEM; return nullptr; }
     void *p = __real_malloc(n);
     if (dom >= 0) ledger_add(p, n, dom, pc);
     return p;
@@ -174,7 +178,9 @@ void *__wrap_calloc(size_t a, size_t b)
 {
     int dom;
     void *pc = __builtin_return_address(0);
-    if (decide(pc, &dom)) { errno = ENOMEM; return nullptr; }
+    size_t tot;
+    if (__builtin_mul_overflow(a, b, &tot)) tot = (size_t)-1;
+    if (decide(pc, &dom, tot)) { errno = ENOMEM; return nullptr; }
     void *p = __real_calloc(a, b);
     if (dom >= 0) ledger_add(p, a * b, dom, pc);
     return p;
@@ -183,7 +189,7 @@ void *__wrap_realloc(void *old, size_t n)
 {
     int dom;
     void *pc = __builtin_return_address(0);
-    if (decide(pc, &dom)) { errno = ENOMEM; return nullptr; }
+    if (decide(pc, &dom, n)) { errno = ENOMEM; return nullptr; }
     // keep the owner of a block that is merely resized
     LeakInfo keep{0, dom, g_sim.op_index, pc, 0};
     bool had = false;
